@@ -11,7 +11,7 @@ PROPS_PATH = "B3/B3sum/Props12.lean"
 RULE = ("process-level runs of the real binary (root file = /repo/b3sum/src/main.rs, shim manifest) in a scratch directory: hashing cases "
         "over flag combinations of --keyed/--derive-key/--length/--seek/--no-mmap/--num-threads/--raw/--no-names/--tag, files around the "
         "mmap threshold, stdin, missing files, odd names; --check cases mixing good, stale, missing-file and malformed lines, LF/CRLF, "
-        "--quiet, several checkfiles; stdout and exit status compared with the prediction of the model's decision logic "
+        "--quiet, several checkfiles; files whose mmap fails (/sys/kernel/btf/vmlinux, a 1.5 GiB sparse file under RLIMIT_AS = 1 GiB) hashed with and without --no-mmap; stdout and exit status compared with the prediction of the model's decision logic "
         "(pure-Python restatement of B3/B3sum/Model.lean, itself diffed against the Lean driver on the P ops) with digests taken from "
         "the library through the driver; non-trivial = every case (each has its own argv/files); distinct = distinct argv+files")
 ASSUMPTIONS = ["clap's argument grammar is not modelled: only accepted flag combinations are generated",
@@ -45,6 +45,37 @@ class ProcStage:
                                  got_stdout=detail["stdout"][:2000].hex(), want_stdout=detail["want_stdout"][:2000].hex(),
                                  got_exit=detail["exit"], want_exit=detail["want_exit"], stderr=detail["stderr"][:1000].decode("utf-8", "replace"),
                                  impl_differs=True))
+        # files whose mmap fails (the fallback path of update_mmap_rayon): the digest must equal the --no-mmap one
+        import subprocess, tempfile, resource, shutil
+        special = []
+        if os.access("/sys/kernel/btf/vmlinux", os.R_OK):
+            special.append(("/sys/kernel/btf/vmlinux", None))
+        tmpd = tempfile.mkdtemp(prefix="verif_c12_")
+        try:
+            big = os.path.join(tmpd, "sparse")
+            with open(big, "wb") as f:
+                f.truncate(3 * 1024 * 1024 * 1024 // 2)          # 1.5 GiB sparse file; RLIMIT_AS = 1 GiB makes its mmap fail
+                f.seek(12345)
+                f.write(b"not all zero")
+            special.append((big, 1 << 30))
+            for path, limit in special:
+                def lim():
+                    if limit:
+                        resource.setrlimit(resource.RLIMIT_AS, (limit, limit))
+                try:
+                    a = subprocess.run([exe, "--num-threads", "1", path], stdout=subprocess.PIPE, stderr=subprocess.PIPE, preexec_fn=lim, timeout=300)
+                    b = subprocess.run([exe, "--num-threads", "1", "--no-mmap", path], stdout=subprocess.PIPE, stderr=subprocess.PIPE, timeout=300)
+                except Exception as ex:
+                    continue
+                hist["mmap-fails"] = hist.get("mmap-fails", 0) + 1
+                distinct.add("mmap-fails:" + path)
+                if (a.stdout != b.stdout or a.returncode != b.returncode) and len(mism) < 6:
+                    mism.append(dict(kind="impl-vs-spec", impl_name="b3sum", ops=[], impl_differs=True,
+                                     note=f"b3sum {path} (mmap fails{', RLIMIT_AS=1GiB' if limit else ''}) differs from b3sum --no-mmap on the same file",
+                                     impl_output=a.stdout[:200].decode("utf-8", "replace") + f" exit={a.returncode} " + a.stderr[:200].decode("utf-8", "replace"),
+                                     spec_output=b.stdout[:200].decode("utf-8", "replace") + f" exit={b.returncode}"))
+        finally:
+            shutil.rmtree(tmpd, ignore_errors=True)
         samples = [b3sum_gen.case_to_json(c) for c in self.cases[:2]]
         for s in samples:
             s.pop("files", None)
